@@ -34,6 +34,24 @@ def text_map(text, path=()):
     for k, v in t[0].items():
         if k[:len(path)] == path and len(k) > len(path): out.setdefault(k[len(path)], {})[k[len(path) + 1:]] = v
     return out
+# ---- attrpath families: assignment to an EXISTING leaf through the nested mapping must show in the text ----
+for it in range(N // 3):
+    root = R.choice(['services', 'meta', 'a']); mids = R.sample(['x', 'y', 'z', 'w'], R.randint(2, 4)); deep = R.random() < 0.5
+    lines = ['  %s.%s%s = %d;' % (root, m, '.enable' if deep else '', j) for j, m in enumerate(mids)]
+    extra = ['  other = 1;'] if R.random() < 0.5 else []
+    R.shuffle(extra)
+    text = '{\n' + '\n'.join(extra[:1] + lines + extra[1:]) + '\n}\n'
+    src = parse(text); m = R.choice(mids); v = R.randrange(100, 200); count('attrpath-leaf-assign')
+    try:
+        if deep: src[root][m]['enable'] = v; got = src[root][m]['enable']
+        else: src[root][m] = v; got = src[root][m]
+        gv = got.rebuild() if hasattr(got, 'rebuild') else str(got)
+        after = read_tree(src.rebuild())
+        key = (root, m, 'enable') if deep else (root, m)
+        if ' '.join(gv.split()) != str(v): bad('lookup after a nested assignment returns %r' % gv, doc=text, ops=[['assign', list(key), v]])
+        elif after is None or after[0].get(key) != str(v): bad('assignment to an attrpath-derived leaf through the nested mapping is not shown by the rebuilt text', doc=text, ops=[['assign', list(key), v]], text=src.rebuild())
+    except Exception as e:
+        bad('nested assignment crashed: %s %s' % (type(e).__name__, e), doc=text)
 for it in range(N):
     text, shape = gen(); src = parse(text); ops = []
     for step in range(R.randint(1, 6)):
